@@ -43,6 +43,418 @@ def rewind(model, info, art):
     return ("contradicted" if ok else "confirmed"), f"interruption seq_nums {seqs}, stop.num_events={stop['num_events']}"
 
 
+def _ival(model, name, default, lo=None):
+    try:
+        v = int(model.get(name, default))
+    except (TypeError, ValueError):
+        v = default
+    return v if lo is None else max(lo, v)
+
+
+class _Det:
+    name = "det"
+    parent = None
+    hints = {"fields": ["det"]}
+
+    def read(self):
+        return {"det": {"value": 1.0, "timestamp": 0.0}}
+
+    def describe(self):
+        return {"det": {"dtype": "number", "shape": [], "source": "x"}}
+
+    def read_configuration(self):
+        return {}
+
+    def describe_configuration(self):
+        return {}
+
+
+class _Sig(_Det):
+    name = "sig"
+    hints = {"fields": ["sig"]}
+    cb = None
+
+    def read(self):
+        return {"sig": {"value": 1.0, "timestamp": 1.0}}
+
+    def describe(self):
+        return {"sig": {"dtype": "number", "shape": [], "source": "s"}}
+
+    def subscribe(self, cb, **kw):
+        self.cb = cb
+
+    def clear_sub(self, cb):
+        self.cb = None
+
+
+def _flyer(kind, declared, batches):
+    """an EventCollectable ('events') / EventPageCollectable ('pages') flyer handing over batches[k] at its k-th collect"""
+    keys_of = {"fly": ["fx"], "fly2": ["fy", "fz"]}
+    dk = lambda: {"dtype": "number", "shape": [], "source": "sim"}   # noqa: E731
+
+    class Base:
+        name = "flyer"
+        parent = None
+        calls = 0
+
+        def kickoff(self):
+            pass
+
+        def complete(self):
+            pass
+
+        def describe_collect(self):
+            if declared:
+                return {"fx": dk()}
+            return {s: {k: dk() for k in keys} for s, keys in keys_of.items()}
+
+        def _next(self):
+            self.calls += 1
+            yield from batches[self.calls - 1]
+
+    class Ev(Base):
+        def collect(self):
+            return self._next()
+
+    class Pg(Base):
+        def collect_pages(self):
+            return self._next()
+    return (Ev if kind == "events" else Pg)(), keys_of
+
+
+def _batch(kind, tag, shape, keys_of, extras, model, base):
+    """native counterpart of contracts/C05.py hand_over_batch: the device's own seq_nums come from the counter-model (default: the
+    device numbers every batch from 1); data values are distinct so that the hand-over order can be recognised"""
+    docs, order = [], {}
+    for i, item in enumerate(shape):
+        s, n = (item, None) if kind == "events" else item
+        keys = keys_of[s]
+        pts = [{k: float(base + 100 * i + j) for k in keys} for j in range(n or 1)]
+        order.setdefault(s, []).extend(p[keys[0]] for p in pts)
+        dev = [_ival(model, f"dev_seq_{tag}_{i}_{j}", j + 1) for j in range(n or 1)]
+        if kind == "events":
+            d = {"data": dict(pts[0]), "timestamps": {k: 1.0 for k in keys}, "time": 1.0}
+            if "filled" in extras:
+                d["filled"] = {k: True for k in keys}
+            if "seq_num" in extras:
+                d["seq_num"] = dev[0]
+        else:
+            d = {"data": {k: [p[k] for p in pts] for k in keys}, "timestamps": {k: [1.0] * n for k in keys}, "time": [1.0] * n}
+            if "filled" in extras:
+                d["filled"] = {k: [True] * n for k in keys}
+            if "seq_num" in extras:
+                d["seq_num"] = list(dev)
+        docs.append(d)
+    return docs, order
+
+
+def emission(model, info, art):
+    """C05: a monitor update (device read / readings passed) or an interruption record from the counters of the counter-model"""
+    what = info.get("what", "interruption record")
+    names = ["primary", "mon", "interruptions"]
+    nxt = {s: _ival(model, f"next_{s}", 1, 1) for s in names}
+    snap = {s: min(_ival(model, f"snap_{s}", 1, 1), nxt[s]) for s in names}
+    b, out = _bundler(True)
+    det, sig = _Det(), _Sig()
+    s = "interruptions" if what == "interruption record" else "mon"
+
+    async def go():
+        await b.open_run(Msg("open_run"))
+        await b.declare_stream(Msg("declare_stream", None, det, name="primary"))
+        await b.monitor(Msg("monitor", sig, name="mon"))
+        for x in names:
+            b._sequence_counters[x] = nxt[x]
+            b._sequence_counters_copy[x] = snap[x]
+        del out[:]
+        if s == "interruptions":
+            b.record_interruption("pause")
+        elif what.endswith("read"):
+            sig.cb()
+        else:
+            sig.cb({"sig": {"value": 2.0, "timestamp": 2.0}})
+    try:
+        asyncio.run(go())
+    except Exception as e:   # noqa
+        return "confirmed", f"{what} raised {type(e).__name__}: {e}"
+    uid = b._interruptions_desc_uid if s == "interruptions" else b._descriptors["mon"].descriptor_doc["uid"]
+    evs = [d for n, d in out if n == "event"]
+    want = {x: nxt[x] + (1 if x == s else 0) for x in names}
+    ok = (len(out) == 1 and len(evs) == 1 and evs[0]["descriptor"] == uid and evs[0]["seq_num"] == nxt[s]
+          and {x: b._sequence_counters.get(x) for x in names} == want and {x: b._sequence_counters_copy.get(x) for x in names} == snap)
+    return ("contradicted" if ok else "confirmed"), (f"{what} with next={nxt}: emitted {[(n, d.get('seq_num')) for n, d in out]}, counters afterwards "
+                                                     f"{dict(b._sequence_counters)}, snapshot {dict(b._sequence_counters_copy)}")
+
+
+def checkpoint_state(model, info, art):
+    """C05: reset_checkpoint_state from the counters of the counter-model, with or without an earlier snapshot: afterwards the snapshot
+    holds every stream's counter; then clear_checkpoint drops it"""
+    names = ["primary", "mon"]
+    nxt = {s: _ival(model, f"next_{s}", 1, 1) for s in names}
+    snap = {s: min(_ival(model, f"snap_{s}", 1, 1), nxt[s]) for s in names}
+    b, out = _bundler(False)
+    det, sig = _Det(), _Sig()
+
+    async def go():
+        await b.open_run(Msg("open_run"))
+        await b.declare_stream(Msg("declare_stream", None, det, name="primary"))
+        await b.monitor(Msg("monitor", sig, name="mon"))
+        b._sequence_counters.clear()
+        b._sequence_counters.update(nxt)
+        b._sequence_counters_copy.clear()
+        if info.get("had_copy", True):
+            b._sequence_counters_copy.update(snap)
+        b.reset_checkpoint_state()
+    asyncio.run(go())
+    ok = dict(b._sequence_counters_copy) == nxt and dict(b._sequence_counters) == nxt
+    return ("contradicted" if ok else "confirmed"), (f"reset_checkpoint_state with next={nxt}, snapshot before {snap if info.get('had_copy', True) else 'none'}: "
+                                                     f"snapshot afterwards {dict(b._sequence_counters_copy)}, counters {dict(b._sequence_counters)}")
+
+
+def save_datum(model, info, art):
+    """C05: create / read / save of a detector that writes one stream datum per event, from the counter of the counter-model: the datum's
+    seq_nums must be [seq_num of the event, + 1)"""
+    from event_model import StreamRange
+    first = bool(info.get("first_datum", True))
+    nxt = {s: _ival(model, f"next_{s}", 1, 1) for s in ("primary", "other")}
+    snap = {s: min(_ival(model, f"snap_{s}", 1, 1), nxt[s]) for s in nxt}
+    i0 = _ival(model, "idx_start", 0, 0)
+
+    class Cam(_Det):
+        name = "cam"
+        hints = {"fields": ["x"]}
+
+        def read(self):
+            return {"x": {"value": 1.0, "timestamp": 0.0}}
+
+        def describe(self):
+            return {"x": {"dtype": "number", "shape": [], "source": "x"},
+                    "img": {"dtype": "array", "shape": [1], "source": "x", "external": "STREAM:"}}
+
+        def collect_asset_docs(self):
+            if first:
+                yield "stream_resource", {"uid": "sr", "data_key": "img", "mimetype": "x", "uri": "file://x", "parameters": {}}
+            yield "stream_datum", {"uid": "sr/0", "stream_resource": "sr", "descriptor": "", "indices": StreamRange(start=i0, stop=i0 + 1),
+                                   "seq_nums": StreamRange(start=0, stop=0)}
+
+    class Other(_Det):
+        name = "other"
+
+        def describe(self):
+            return {"y": {"dtype": "number", "shape": [], "source": "x"}}
+    b, out = _bundler(False)
+    cam = Cam()
+
+    async def go():
+        await b.open_run(Msg("open_run"))
+        await b.declare_stream(Msg("declare_stream", None, cam, name="primary"))
+        await b.declare_stream(Msg("declare_stream", None, Other(), name="other"))
+        for s in nxt:
+            b._sequence_counters[s] = nxt[s]
+            b._sequence_counters_copy[s] = snap[s]
+        if not first:
+            b._stream_resource_data_keys["sr"] = "img"
+        del out[:]
+        await b.create(Msg("create", name="primary"))
+        await b.read(Msg("read", cam), cam.read())
+        await b.save(Msg("save"))
+    try:
+        asyncio.run(go())
+    except Exception as e:   # noqa
+        return "confirmed", f"create/read/save with a stream datum raised {type(e).__name__}: {e}"
+    evs = [d for n, d in out if n == "event"]
+    sds = [d for n, d in out if n == "stream_datum"]
+    order = [n for n, d in out if n in ("stream_datum", "event")]
+    ok = (len(evs) == 1 and len(sds) == 1 and order == ["stream_datum", "event"] and evs[0]["seq_num"] == nxt["primary"]
+          and dict(sds[0]["seq_nums"]) == {"start": evs[0]["seq_num"], "stop": evs[0]["seq_num"] + 1} and sds[0]["indices"]["start"] == i0
+          and sds[0]["descriptor"] == evs[0]["descriptor"]
+          and b._sequence_counters["primary"] == nxt["primary"] + 1 and b._sequence_counters["other"] == nxt["other"]
+          and b._sequence_counters_copy["primary"] == snap["primary"])
+    return ("contradicted" if ok else "confirmed"), (f"next={nxt}: event seq_nums {[e['seq_num'] for e in evs]}, stream_datum seq_nums "
+                                                     f"{[dict(d['seq_nums']) for d in sds]} indices {[dict(d['indices']) for d in sds]}, emitted {order}, "
+                                                     f"counters afterwards {dict(b._sequence_counters)}")
+
+
+def rewind_state(model, info, art):
+    """C05 rewind contract on the real bundler: every kind of stream, each created by the real operation ('primary' declared for a
+    readable, 'mon' by monitor, 'interruptions' by open_run, 'fly' by an old-style collect of a flyer, 'sd' / 'sd2' by a collect of a
+    stream-datum detector on a pre-declared stream - with / without get_index, the two no-event branches of collect), counters and
+    snapshot from the counter-model, the streams listed in info['no_snapshot'] without a snapshot entry; then rewind twice and emit
+    an interruption record and a 'primary' event"""
+    from event_model import StreamRange
+    gone = list(info.get("no_snapshot") or [])
+    names = ["primary", "mon", "interruptions", "fly", "sd", "sd2"]
+    never = names[1:]
+    nxt = {s: _ival(model, f"next_{s}", 1, 1) for s in names}
+    snap = {s: min(_ival(model, f"snap_{s}", 1, 1), nxt[s]) for s in names}
+    b, out = _bundler(True)
+    det, sig = _Det(), _Sig()
+    fl, _ = _flyer("events", False, [[{"data": {"fx": 1.0}, "timestamps": {"fx": 1.0}, "time": 1.0}]])    # (describes 'fly' and 'fly2')
+
+    class SD:
+        parent = None
+
+        def __init__(self, name, key, width):
+            self.name, self.key, self.width = name, key, width
+
+        def describe_collect(self):
+            return {self.key: {"dtype": "array", "shape": [1], "source": "x", "external": "STREAM:"}}
+
+        def read_configuration(self):
+            return {}
+
+        def describe_configuration(self):
+            return {}
+
+        def kickoff(self):
+            pass
+
+        def complete(self):
+            pass
+
+        def collect_asset_docs(self, index=None):
+            yield "stream_resource", {"uid": "sr-" + self.key, "data_key": self.key, "mimetype": "x", "uri": "file://x", "parameters": {}}
+            yield "stream_datum", {"uid": "sr-" + self.key + "/0", "stream_resource": "sr-" + self.key, "descriptor": "",
+                                   "indices": StreamRange(start=0, stop=self.width), "seq_nums": StreamRange(start=0, stop=0)}
+
+    class SDIndexed(SD):
+        def get_index(self):
+            return self.width
+    sd, sd2 = SDIndexed("sd_det", "img", 3), SD("sd2_det", "img2", 2)
+    bad = []
+
+    async def go():
+        await b.open_run(Msg("open_run"))
+        await b.declare_stream(Msg("declare_stream", None, det, name="primary"))
+        await b.monitor(Msg("monitor", sig, name="mon"))
+        await b.collect(Msg("collect", fl))
+        await b.declare_stream(Msg("declare_stream", None, sd, name="sd", collect=True))
+        await b.collect(Msg("collect", sd, name="sd"))
+        await b.declare_stream(Msg("declare_stream", None, sd2, name="sd2", collect=True))
+        await b.collect(Msg("collect", sd2, name="sd2"))
+        missing = [s for s in names if s not in b._sequence_counters]
+        if missing:
+            bad.append(f"streams without a counter after their creation: {missing}")
+        if (b._sequence_counters.get("sd"), b._sequence_counters.get("sd2")) != (4, 3):
+            bad.append(f"collects of 3 and 2 frames left the counters at sd={b._sequence_counters.get('sd')}, sd2={b._sequence_counters.get('sd2')}")
+        for s in names:
+            b._sequence_counters[s] = nxt[s]
+            b._sequence_counters_copy[s] = snap[s]
+        b._interruptions_counter = nxt["interruptions"] - 1
+        for s in gone:
+            del b._sequence_counters_copy[s]
+        b.bundling = True
+        b.rewind()
+        got = dict(b._sequence_counters)
+        want = 1 if "primary" in gone else snap["primary"]
+        if got.get("primary") != want or b.bundling is not False:
+            bad.append(f"replayable stream 'primary' (next {nxt['primary']}, snapshot {'none' if 'primary' in gone else snap['primary']}) is at "
+                       f"{got.get('primary')} after the rewind, bundling={b.bundling}")
+        for s in never:
+            if got.get(s) != nxt[s]:
+                bad.append(f"never-replayed stream {s!r} (next {nxt[s]}, snapshot {'none' if s in gone else snap[s]}) is at {got.get(s)} after the rewind")
+        b.rewind()
+        if dict(b._sequence_counters) != got:
+            bad.append(f"a second rewind changed the counters from {got} to {dict(b._sequence_counters)}")
+        del out[:]
+        b.record_interruption("resume")
+        await b.create(Msg("create", name="primary"))
+        await b.read(Msg("read", det), det.read())
+        await b.save(Msg("save"))
+        seqs = [d["seq_num"] for n, d in out if n == "event"]
+        after = (b._sequence_counters.get("interruptions"), b._sequence_counters.get("primary"))
+        if seqs != [nxt["interruptions"], want] or after != (nxt["interruptions"] + 1, want + 1):
+            bad.append(f"after the rewind an interruption record and a 'primary' event were numbered {seqs} (expected {[nxt['interruptions'], want]}), "
+                       f"counters afterwards interruptions={after[0]} primary={after[1]}")
+    try:
+        asyncio.run(go())
+    except Exception as e:   # noqa
+        if bad:
+            return "confirmed", "; ".join(bad) + f"; then {type(e).__name__}: {e}"
+        return "confirmed", f"the scenario raised {type(e).__name__}: {e}"
+    if bad:
+        return "confirmed", "; ".join(bad)
+    return "contradicted", f"rewind with next={nxt}, snap={snap}, no snapshot for {gone}: all clauses hold natively"
+
+
+def collect_events(model, info, art):
+    """C05: two collects of a flyer handing over partial events / event pages (old-style describe_collect streams or a pre-declared
+    stream), the second from the counters of the counter-model, then a rewind: the clauses of contracts/C05.py E_NEW / E_NUM / E_REW
+    evaluated on the real bundler with the real event_model"""
+    kind, declared, named = info.get("kind", "events"), bool(info.get("declared")), bool(info.get("named"))
+    extras = list(info.get("extras") or [])
+    tup = lambda sh: [tuple(x) if isinstance(x, list) else x for x in sh]   # noqa: E731
+    shape1, shape2 = tup(info.get("shape1") or []), tup(info.get("shape2") or [])
+    streams = ["fly"] if declared else ["fly", "fly2"]
+    keys_of = {"fly": ["fx"], "fly2": ["fy", "fz"]}
+    docs1, order1 = _batch(kind, "a", shape1, keys_of, extras, model, 1000)
+    docs2, order2 = _batch(kind, "b", shape2, keys_of, extras, model, 5000)
+    fl, _ = _flyer(kind, declared, [docs1, docs2])
+    det = _Det()
+    b, out = _bundler(False)
+    nxt = {s: _ival(model, f"next_{s}", 1, 1) for s in ["primary"] + streams}
+    snap = {s: min(_ival(model, f"snap_{s}", 1, 1), nxt[s]) for s in nxt}
+    bad = []
+
+    def numbering(order, start, what):
+        pages = [d for n, d in out if n == "event_page"]
+        if any(n == "event" for n, d in out):
+            bad.append(f"{what}: single events emitted")
+        for s, vals in order.items():
+            uid = b._descriptors[s].descriptor_doc["uid"]
+            mine = [p for p in pages if p["descriptor"] == uid]
+            seqs = [x for p in mine for x in p["seq_num"]]
+            got = [x for p in mine for x in p["data"][keys_of[s][0]]]
+            want = list(range(start[s], start[s] + len(vals)))
+            if seqs != want or got != vals or b._sequence_counters[s] != start[s] + len(vals):
+                bad.append(f"{what}: stream {s!r}: {len(vals)} points handed over with the counter at {start[s]} were numbered {seqs} "
+                           f"(order kept: {got == vals}), counter afterwards {b._sequence_counters[s]}")
+
+    async def go():
+        await b.open_run(Msg("open_run"))
+        await b.declare_stream(Msg("declare_stream", None, det, name="primary"))
+        kw = {}
+        if declared:
+            await b.declare_stream(Msg("declare_stream", None, fl, name="fly", collect=True))
+            if named:
+                kw = {"name": "fly"}
+        del out[:]
+        await b.collect(Msg("collect", fl, **kw))
+        numbering(order1, {s: 1 for s in streams}, "first collect (new streams)")
+        for s in nxt:
+            b._sequence_counters[s] = nxt[s]
+            b._sequence_counters_copy[s] = snap[s]
+        del out[:]
+        await b.collect(Msg("collect", fl, **kw))
+        numbering(order2, nxt, "later collect")
+        for s in ["primary"] + streams:
+            if s not in order2 and b._sequence_counters[s] != nxt[s]:
+                bad.append(f"later collect: counter of untouched stream {s!r} went from {nxt[s]} to {b._sequence_counters[s]}")
+        if info.get("absent"):
+            for s in streams:
+                del b._sequence_counters_copy[s]
+        after = {s: b._sequence_counters[s] for s in streams}
+        b.rewind()
+        for s in streams:
+            if b._sequence_counters.get(s) != after[s]:
+                bad.append(f"rewind: stream {s!r} (fed by collect, snapshot {'absent' if info.get('absent') else snap[s]}) rolled back from "
+                           f"{after[s]} to {b._sequence_counters.get(s)}")
+        if b._sequence_counters.get("primary") != snap["primary"]:
+            bad.append(f"rewind: replayable stream 'primary' is at {b._sequence_counters.get('primary')}, snapshot {snap['primary']}")
+    try:
+        asyncio.run(go())
+    except Exception as e:   # noqa
+        bad.append(f"raised {type(e).__name__}: {e}")
+    clause = info.get("clause")
+    if clause:
+        key = {"new": "first collect", "numbering": "later collect", "rewind": "rewind"}[clause]
+        mine = [x for x in bad if x.startswith(key) or x.startswith("raised")]
+        if mine:
+            return "confirmed", "; ".join(mine)
+        return "contradicted", f"clause '{clause}' holds natively ({kind}, declared={declared}, extras={extras}, shapes {shape1} / {shape2}, next={nxt}, snap={snap})" + \
+            (f"; other clauses: {'; '.join(bad)}" if bad else "")
+    return ("confirmed", "; ".join(bad)) if bad else ("contradicted", "all clauses hold natively")
+
+
 def counters(model, info, art):
     """create/read/save numbering with checkpoint and rewind on a replayable stream"""
     class Det:
